@@ -28,7 +28,7 @@ def draw(rng, kinds=("isa", "casc", "corpus", "mut", "isamut"), weights=None):
     kind = rng.choices(kinds, weights=weights)[0] if weights else rng.choice(kinds)
     if kind in ("isa", "casc"):
         prog, src = gen_isa_source(rng, cascade=(kind == "casc"))
-        return {"kind": kind, "files": {"main.asm": src}, "roots": ["main.asm"], "std": False, "tag": kind, "prog": prog}
+        return {"kind": kind, "files": dict({"main.asm": src}, **prog.get("extra_files", {})), "roots": ["main.asm"], "std": False, "tag": kind, "prog": prog}
     if kind == "deep":
         prog = G.gen_deep_cascade(rng)
         return {"kind": kind, "files": {"main.asm": G.render(prog)}, "roots": ["main.asm"], "std": False, "tag": "deep", "prog": prog}
